@@ -1,6 +1,7 @@
 import PGM.Generated.RegionGraphG
 import PGM.Proofs.RegionGraphGen
 import PGM.Proofs.RegionGraphGen2
+import PGM.Proofs.RegionGraphGen3
 import PGM.Properties.C16
 import PGM.Properties.C17
 /-!
@@ -36,10 +37,17 @@ from `BuiltOK`.  Certificates with the regenerated construction feeding the rege
 `gen_hps_certificate_source` (from the clique list on), `gen_counting_convex`, `gen_gbp_tables_normalised_built`,
 `gen_gbp_tables_valid_built` (generalised propagation on the regenerated N / D / B themselves, `genGraphN`).
 
-OPEN: the regenerated Möbius counting numbers (`RGG.buildGraphN*_get_counting_number`, memoised recursion) and the regenerated
-N / D / B dictionaries are NOT proved equal to `RG.moebius` / `beliefSetMin` / `msgSetsMin` / `beliefSetSat` / `msgSetsSat`; the C16
-statements above hold for the regenerated N / D / B as they are (they are ∀-graph statements), the counting numbers of the
-non-convex graph are read by none of the translated oracles.
+N / D / B (third part): `gen_buildGraphNM_NDB`, `gen_buildGraphNS_NDB` — the regenerated dictionaries are `beliefSetMin` / `msgSetsMin` /
+`beliefSetSat` / `msgSetsSat` of the model, entry by entry and in order; `genGraphN'` is the graph record built from regenerated
+fields only, `gen_gbp_built_eq` identifies the regenerated oracle on it with `RG.gbp` on `RG.buildOn`, `gen_gbp_tables_*_built'`.
+Counting numbers: `gen_counting_NM` / `gen_counting_NS` — the regenerated memoised recursion returns THE solution of
+`c r = 1 − Σ_{a ∈ ancestors r} c a` under acyclicity (`MoebiusOK`), hence `gen_counting_eq_model`: equal to `RG.moebius` look-up by
+look-up whenever the model's numbers satisfy the recurrence.  The dictionary ORDER differs from the model's list
+(`counting_order_differs`: completion order of the recursion vs region order) — a full list equality is false.
+
+OPEN: `MoebiusOK` for every `RG.buildOn` graph, i.e. two facts about the MODEL alone (no generated code involved): `RG.moebius`
+satisfies the recurrence (its `byDepth` order lists ancestors first), and `RG.reach` over the cover graph is acyclic and stays
+inside the regions.  Checked by `decide` on an instance.
 -/
 namespace PGM.C17G
 open PGM PGM.JT PGM.RG PGM.RGGen
@@ -745,5 +753,183 @@ theorem gen_hps_certificate_source (dom : Dom) (cliques regions : List Region) (
   subst e'
   have h := gen_hps_certificate_built dom (RG.closure cliques) minimal potentials T rho conv iters hT hit hd hsz hok.1 hok.2 hp
   exact ⟨h.1, h.2.1, h.2.2.2.1, fun hc => (h.2.2.2.2 hc).1⟩
+
+
+/-! ## N / D / B of the non-convex graph: the regenerated dictionaries are the model's -/
+
+theorem buildOn_keys_nodup (regions : List Region) (convex minimal : Bool) (hnd : regions.Nodup) :
+    (regions.flatMap (fun p => (RG.look (RG.buildOn regions convex minimal).children p).map (fun r => (p, r)))).Nodup :=
+  nodup_pairs_flatMap regions _ hnd (PGM.Convex.buildOn_ok regions convex minimal hnd).children_nodup
+
+/-- non-convex, minimal: N, D, B (components 6-8) -/
+theorem gen_buildGraphNM_NDB (dom : Dom) (regions : List Region) (fuel : Nat) (hnd : regions.Nodup) :
+    (RGG.buildGraphNM (α := α) dom regions fuel).2.2.2.2.2.1 = (RG.buildOn regions false true).N ∧
+    (RGG.buildGraphNM (α := α) dom regions fuel).2.2.2.2.2.2.1 = (RG.buildOn regions false true).D ∧
+    (RGG.buildGraphNM (α := α) dom regions fuel).2.2.2.2.2.2.2.1 = (RG.buildOn regions false true).B := by
+  have hND := NDmin_eq regions (RG.buildOn regions false true).children (RG.buildOn regions false true).parents
+    (RG.buildOn regions false true).descendants (buildOn_keys_nodup regions false true hnd)
+  have hB := Bmin_eq regions (RG.buildOn regions false true).parents (RG.buildOn regions false true).descendants hnd
+  unfold RGG.buildGraphNM
+  simp only [addNodes_empty, coverFold_eq, RGG.nxNeighbors, RGG.nxRevNeighbors, RGG.nxTCNeighbors, RGG.nxTCRevNeighbors, RGG.nxEdges,
+    edgesOf_coverEdges regions hnd, look_eq, minFold_eq, RGG.DiGraph.addEdges, List.nil_append]
+  exact ⟨(congrArg Prod.fst hND).trans rfl, (congrArg Prod.snd hND).trans rfl, hB.trans rfl⟩
+
+
+theorem look_downp (regions : List Region) (desc : List (Region × List Region)) (r : Region) (hr : r ∈ regions) :
+    RG.look (regions.map (fun r => (r, RGG.pySet ([r] ++ RG.look desc r)))) r = RG.downp desc r := by
+  rw [PGM.Convex.look_map_self regions (fun r => RGG.pySet ([r] ++ RG.look desc r)) r hr]
+  rfl
+
+/-- non-convex, saturated: N, D, B (components 6-8) -/
+theorem gen_buildGraphNS_NDB (dom : Dom) (regions : List Region) (fuel : Nat) (hnd : regions.Nodup) :
+    (RGG.buildGraphNS (α := α) dom regions fuel).2.2.2.2.2.1 = (RG.buildOn regions false false).N ∧
+    (RGG.buildGraphNS (α := α) dom regions fuel).2.2.2.2.2.2.1 = (RG.buildOn regions false false).D ∧
+    (RGG.buildGraphNS (α := α) dom regions fuel).2.2.2.2.2.2.2.1 = (RG.buildOn regions false false).B := by
+  have hok := PGM.Convex.buildOn_ok regions false false hnd
+  have hdp := fun r hr => look_downp regions (RG.buildOn regions false false).descendants r hr
+  have hND := NDsat_eq regions (coverEdges regions) (RG.buildOn regions false false).children
+    (RG.buildOn regions false false).descendants _ (buildOn_keys_nodup regions false false hnd)
+    (fun p hp c hc => (hok.children_sub p hp c hc).1) hdp
+  have hB := Bsat_eq regions (RG.buildOn regions false false).parents (RG.buildOn regions false false).descendants _ hnd hdp
+  unfold RGG.buildGraphNS
+  simp only [addNodes_empty, coverFold_eq, RGG.nxNeighbors, RGG.nxRevNeighbors, RGG.nxTCNeighbors, RGG.nxTCRevNeighbors, RGG.nxEdges,
+    edgesOf_coverEdges regions hnd, look_eq]
+  exact ⟨(congrArg Prod.fst hND).trans rfl, (congrArg Prod.snd hND).trans rfl, hB.trans rfl⟩
+
+
+/-! ## the Möbius counting numbers (memoised recursion) -/
+
+theorem isGcn_NM (anc : List (Region × List Region)) : IsGcn anc (RGG.buildGraphNM_get_counting_number anc) :=
+  ⟨fun _ _ => rfl, fun _ _ _ => rfl⟩
+theorem isGcn_NS (anc : List (Region × List Region)) : IsGcn anc (RGG.buildGraphNS_get_counting_number anc) :=
+  ⟨fun _ _ => rfl, fun _ _ _ => rfl⟩
+
+/-- the hypotheses under which the memoised recursion is identified: a solution `c` of `c r = 1 − Σ_{a ∈ ancestors r} c a` on
+the regions, and a rank that decreases along `ancestors`, which stay inside the regions (acyclicity); depth bound above the ranks -/
+structure MoebiusOK (regions : List Region) (anc : List (Region × List Region)) (c : Region → Int) (rank : Region → Nat) (fuel : Nat) : Prop where
+  recur : ∀ r ∈ regions, c r = 1 - ((RG.look anc r).map c).foldl (· + ·) 0
+  rank_lt : ∀ r ∈ regions, ∀ a ∈ RG.look anc r, rank a < rank r ∧ a ∈ regions
+  fuel_ok : ∀ r ∈ regions, rank r < fuel
+
+/-- **the regenerated memoised recursion computes the solution of the Möbius recurrence** (minimal variant): after
+`for r in regions: get_counting_number(r)` the dictionary `self.counting_numbers` holds `c r` under every region -/
+theorem gen_counting_NM (dom : Dom) (regions : List Region) (fuel : Nat) (hnd : regions.Nodup) (c : Region → Int) (rank : Region → Nat)
+    (h : MoebiusOK regions (RG.buildOn regions false true).ancestors c rank fuel) (r : Region) (hr : r ∈ regions) :
+    RGG.intGet (RGG.buildGraphNM (α := α) dom regions fuel).2.2.2.2.1 r = c r := by
+  have key := gcn_all (RG.buildOn regions false true).ancestors _ (isGcn_NM _) c rank regions h.recur h.rank_lt fuel regions
+    (fun x hx => ⟨h.fuel_ok x hx, hx⟩) r hr
+  unfold RGG.buildGraphNM
+  simp only [addNodes_empty, coverFold_eq, RGG.nxNeighbors, RGG.nxRevNeighbors, RGG.nxTCNeighbors, RGG.nxTCRevNeighbors, RGG.nxEdges,
+    edgesOf_coverEdges regions hnd, look_eq, minFold_eq, RGG.DiGraph.addEdges, List.nil_append]
+  exact key
+
+theorem gen_counting_NS (dom : Dom) (regions : List Region) (fuel : Nat) (hnd : regions.Nodup) (c : Region → Int) (rank : Region → Nat)
+    (h : MoebiusOK regions (RG.buildOn regions false false).ancestors c rank fuel) (r : Region) (hr : r ∈ regions) :
+    RGG.intGet (RGG.buildGraphNS (α := α) dom regions fuel).2.2.2.2.1 r = c r := by
+  have key := gcn_all (RG.buildOn regions false false).ancestors _ (isGcn_NS _) c rank regions h.recur h.rank_lt fuel regions
+    (fun x hx => ⟨h.fuel_ok x hx, hx⟩) r hr
+  unfold RGG.buildGraphNS
+  simp only [addNodes_empty, coverFold_eq, RGG.nxNeighbors, RGG.nxRevNeighbors, RGG.nxTCNeighbors, RGG.nxTCRevNeighbors, RGG.nxEdges,
+    edgesOf_coverEdges regions hnd, look_eq]
+  exact key
+
+/-- **equal to the model's `RG.moebius`, region by region**, whenever the model's numbers satisfy the recurrence (the model's half of
+the uniqueness argument; OPEN in general, see the example for a checked instance).  The dictionaries themselves differ in ORDER:
+Python's `moebius` is filled in order of completion of the recursion, the model lists the regions in their own order
+(`counting_order_differs`) — only look-ups are read. -/
+theorem gen_counting_eq_model (dom : Dom) (regions : List Region) (minimal : Bool) (fuel : Nat) (hnd : regions.Nodup) (rank : Region → Nat)
+    (h : MoebiusOK regions (RG.buildOn regions false minimal).ancestors (fun r => RGG.intGet (RG.buildOn regions false minimal).counting r) rank fuel)
+    (r : Region) (hr : r ∈ regions) :
+    RGG.intGet (if minimal then (RGG.buildGraphNM (α := α) dom regions fuel).2.2.2.2.1 else (RGG.buildGraphNS (α := α) dom regions fuel).2.2.2.2.1) r
+      = RGG.intGet (RG.buildOn regions false minimal).counting r := by
+  cases minimal
+  · exact gen_counting_NS dom regions fuel hnd _ rank h r hr
+  · exact gen_counting_NM dom regions fuel hnd _ rank h r hr
+
+/-- the hypotheses hold on `{A,B}`, `{B,C}`, `{B}` (both variants), with the number of ancestors as rank -/
+example : MoebiusOK [["A", "B"], ["B", "C"], ["B"]] (RG.buildOn [["A", "B"], ["B", "C"], ["B"]] false true).ancestors
+    (fun r => RGG.intGet (RG.buildOn [["A", "B"], ["B", "C"], ["B"]] false true).counting r)
+    (fun r => (RG.look (RG.buildOn [["A", "B"], ["B", "C"], ["B"]] false true).ancestors r).length) 4 :=
+  ⟨by decide, by decide, by decide⟩
+
+/-- the ORDER of the dictionary differs from the model's list: `[["B"], ["A","B"]]` — the recursion completes `("A","B")` first -/
+theorem counting_order_differs :
+    (RGG.buildGraphNS (α := ExtQ) [("A", 2), ("B", 2)] [["B"], ["A", "B"]] 3).2.2.2.2.1 = [(["A", "B"], 1), (["B"], 0)] ∧
+    (RG.buildOn [["B"], ["A", "B"]] false false).counting = [(["B"], 0), (["A", "B"], 1)] := by
+  decide
+
+/-! ## generalised propagation on the graph built ENTIRELY by regenerated code -/
+
+section builtN
+open PGM.Convex PGM.Oracle
+
+/-- every field from the regenerated non-convex `build_graph`; the two model-only book-keeping fields `children0` / `parents0`
+(no oracle, no check and no theorem about the oracles reads them) repeat `children` / `parents`; the counting numbers are the
+look-ups of the regenerated dictionary in region order -/
+noncomputable def genGraphN' (dom : Dom) (regions : List Region) (minimal : Bool) (fuel : Nat) : RG.Graph :=
+  let b := if minimal then RGG.buildGraphNM (α := ℝ) dom regions fuel else RGG.buildGraphNS (α := ℝ) dom regions fuel
+  { regions := regions, cliques := RGG.sortByLen regions, children := b.1, parents := b.2.1, descendants := b.2.2.1, ancestors := b.2.2.2.1,
+    children0 := b.1, parents0 := b.2.1,
+    counting := regions.map (fun r => (r, RGG.intGet b.2.2.2.2.1 r)), N := b.2.2.2.2.2.1, D := b.2.2.2.2.2.2.1, B := b.2.2.2.2.2.2.2.1,
+    messageOrder := b.2.2.2.2.2.2.2.2.2 }
+
+/-- the oracle-relevant fields of that graph are the model's -/
+theorem genGraphN'_fields (dom : Dom) (regions : List Region) (minimal : Bool) (fuel : Nat) (hnd : regions.Nodup) :
+    let g' := genGraphN' dom regions minimal fuel
+    let g := RG.buildOn regions false minimal
+    g'.regions = g.regions ∧ g'.cliques = g.cliques ∧ g'.children = g.children ∧ g'.parents = g.parents ∧
+      g'.descendants = g.descendants ∧ g'.ancestors = g.ancestors ∧ g'.N = g.N ∧ g'.D = g.D ∧ g'.B = g.B ∧ g'.messageOrder = g.messageOrder := by
+  unfold genGraphN'
+  cases minimal
+  · obtain ⟨h1, h2, h3, h4, h5⟩ := gen_buildGraphNS_skeleton (α := ℝ) dom regions fuel hnd
+    obtain ⟨n1, n2, n3⟩ := gen_buildGraphNS_NDB (α := ℝ) dom regions fuel hnd
+    simp only [Bool.false_eq_true, if_false]
+    rw [h1, h2, h3, h4, h5, n1, n2, n3, gen_initMessages_buildOn dom regions false false hnd]
+    exact ⟨rfl, rfl, rfl, rfl, rfl, rfl, rfl, rfl, rfl, rfl⟩
+  · obtain ⟨h1, h2, h3, h4, h5⟩ := gen_buildGraphNM_skeleton (α := ℝ) dom regions fuel hnd
+    obtain ⟨n1, n2, n3⟩ := gen_buildGraphNM_NDB (α := ℝ) dom regions fuel hnd
+    simp only [if_true]
+    rw [h1, h2, h3, h4, h5, n1, n2, n3, gen_initMessages_buildOn dom regions false true hnd]
+    exact ⟨rfl, rfl, rfl, rfl, rfl, rfl, rfl, rfl, rfl, rfl⟩
+
+theorem genGraphN'_src (dom : Dom) (regions : List Region) (minimal : Bool) (fuel : Nat) (hnd : regions.Nodup) :
+    ∀ e ∈ (genGraphN' dom regions minimal fuel).messageOrder, e.1 ∈ (genGraphN' dom regions minimal fuel).regions := by
+  rw [(genGraphN'_fields dom regions minimal fuel hnd).2.2.2.2.2.2.2.2.2]
+  intro e he
+  exact ((buildOn_ok regions false minimal hnd).order_sound e he).1
+
+/-- **the regenerated oracle on the regenerated graph is the model's oracle on the model's graph** -/
+theorem gen_gbp_built_eq (dom : Dom) (regions : List Region) (minimal : Bool) (fuel : Nat) (pots : CliqueVec ℝ) (T : ℝ)
+    (iters : Nat) (msgs : Msgs ℝ) (hnd : regions.Nodup) :
+    genGbp dom (genGraphN' dom regions minimal fuel) pots T iters msgs
+      = RG.gbp dom (RG.buildOn regions false minimal) pots T iters msgs := by
+  obtain ⟨f1, f2, _, _, _, _, f7, f8, f9, f10⟩ := genGraphN'_fields dom regions minimal fuel hnd
+  unfold genGbp
+  rw [f1, f2, f7, f8, f9, f10]
+  exact gen_gbp dom (RG.buildOn regions false minimal) pots T iters msgs
+    (fun e he => ((buildOn_ok regions false minimal hnd).order_sound e he).1)
+
+theorem gen_gbp_tables_normalised_built' (dom : Dom) (regions : List Region) (minimal : Bool) (fuel : Nat) (pots : CliqueVec ℝ) (T : ℝ)
+    (iters : Nat) (msgs : Msgs ℝ) (hnd : regions.Nodup) (p : Clique × Factor ℝ)
+    (hp : p ∈ (genGbp dom (genGraphN' dom regions minimal fuel) pots T iters msgs).1) :
+    ∃ b : Factor ℝ, p.2 = RG.normalise T b :=
+  gen_gbp_tables_normalised dom _ pots T iters msgs (genGraphN'_src dom regions minimal fuel hnd) p hp
+
+theorem gen_gbp_tables_valid_built' (dom : Dom) (regions : List Region) (minimal : Bool) (fuel : Nat) (pots : CliqueVec ℝ) (T : ℝ)
+    (iters : Nat) (hT : 0 < T) (hdom : PosDom dom) (hnd : regions.Nodup) (hreg : ∀ r ∈ regions, ∀ a ∈ r, a ∈ dom.attrs)
+    (hcl : ∀ r ∈ regions, PosDom (pots.get r).dom ∧ (pots.get r).vals.data.size ≠ 0)
+    (p : Clique × Factor ℝ)
+    (hp : p ∈ (genGbp dom (genGraphN' dom regions minimal fuel) pots T iters
+      (RG.initMessages dom (genGraphN' dom regions minimal fuel).messageOrder)).1) : ValidTable T p.2 := by
+  refine gen_gbp_tables_valid_init dom _ pots T iters hT hdom (genGraphN'_src dom regions minimal fuel hnd) ?_ ?_ p hp
+  · rw [(genGraphN'_fields dom regions minimal fuel hnd).2.2.2.2.2.2.2.2.2]
+    intro e he
+    have hs := (buildOn_ok regions false minimal hnd).order_sound e he
+    have hc := (buildOn_ok regions false minimal hnd).children_sub e.1 hs.1 e.2 hs.2
+    exact ⟨hreg e.1 hs.1, hreg e.2 hc.1⟩
+  · intro r hr
+    exact hcl r ((mem_sortByLen regions r).mp hr)
+
+end builtN
 
 end PGM.C17G
